@@ -41,6 +41,8 @@ type Solver struct {
 	Cross     *Solver // optional second solver: every uncached query is asked twice and the verdicts compared
 	CrossN    int
 	CrossBad  int
+	Retries   int  // queries answered unknown within TimeoutMs and asked again with a longer limit
+	noRetry   bool // set on the one-off solver used for a retry
 }
 
 func StartSolver(name string, timeoutMs int, seed int) (*Solver, error) {
@@ -200,7 +202,28 @@ func (s *Solver) CheckQuery(asserts []*Term, model Model) Result {
 		return ce.res
 	}
 	t0 := time.Now()
+	errs := s.Errors
 	res, vals := s.run(text, vars)
+	if res == Unknown && s.Errors == errs && !s.noRetry && os.Getenv("GOSYMX_NORETRY") == "" {
+		// a plain timeout (no solver error): ask once more with six times the limit in a
+		// fresh process, so that a loaded machine does not turn a decidable query into
+		// an inconclusive run; a second unknown stands
+		lim := s.TimeoutMs * 6
+		if lim > 900000 {
+			lim = 900000
+		}
+		if r, err := StartSolver(s.Name, lim, s.seed); err == nil {
+			r.noRetry = true
+			res, vals = r.run(text, vars)
+			if r.Errors > 0 {
+				s.Errors++
+				s.LastErr = "retry: " + r.LastErr
+				res = Unknown
+			}
+			r.Close()
+			s.Retries++
+		}
+	}
 	s.Seconds += time.Since(t0).Seconds()
 	s.Queries++
 	if s.Cross != nil && res != Unknown {
